@@ -8,10 +8,15 @@ the theorems hold for every horizon `H`, i.e. over an arbitrarily long prefix of
 iterator.  `StepsSpec N H l`: `l` is strictly increasing and `δ ∈ l ↔ 1 ≤ δ ≤ H ∧ N (δ-1) < N δ`.
 
 The full statement (for ALL well-formed arrival models) is FALSE for the code as it is:
-three genuine defects were found by the failing proof obligations and are replayed on the
-real crate by the falsifier (findings F2, F3, K1; counterexample theorems below).  The
-proved statement `steps_exact` carries the hypothesis `Arr.Exact` that excludes exactly
-those three shapes; nothing else is excluded. -/
+genuine defects were found by the failing proof obligations and are replayed on the real
+crate by the falsifier (findings F3, K1; counterexample theorems below).  A third finding,
+F2 (`Propagated::steps_iter` yielded the step 1 even if nothing arrives within the jitter),
+is FIXED in the Rust code ("fix: Propagated::steps_iter yields 1 only if the curve steps
+there"); the model follows the fix and the formerly failing instance is now proved exact
+(`propagated_over_nothing_exact`).  The proved statement `steps_exact_partial` carries the
+hypothesis `Arr.Exact` that excludes exactly the two remaining shapes — F3 (delta-min
+vectors ending in a plateau) and K1 (`ArrivalCurvePrefix` yields 0); nothing else is
+excluded. -/
 
 namespace RTA.C11
 open RTA
@@ -20,7 +25,7 @@ open RTA
 def StepsExactForAll : Prop :=
   ∀ (a : Arr), a.WF → ∀ H, StepsSpec a.N H (a.stepsUpTo H)
 
-/-- C11 (partial: all arrival models except the shapes of findings F2, F3, K1):
+/-- C11 (partial: all arrival models except the shapes of findings F3, K1):
 strictly increasing, every yielded `δ ≥ 1`, and `δ` is yielded iff the bound increases at `δ` -/
 theorem steps_exact_partial (a : Arr) (hwf : a.WF) (hex : a.Exact) (H : Nat) :
     StepsSpec a.N H (a.stepsUpTo H) := Arr.steps_spec a hwf hex H
@@ -61,10 +66,21 @@ theorem counterexample_F3 : ¬ StepsExactForAll := by
     have := h (.curve [5, 10, 10]) (by decide) 20
     simpa [Arr.N, Arr.stepsUpTo] using this)
 
-/-- finding F2: `Propagated` over a model under which nothing ever arrives -/
-theorem counterexample_F2 : ¬ StepsExactForAll := by
-  intro h
-  exact prop_never_counterexample (h (.prop 3 .never) (by decide) 10)
+/-- former finding F2 (fixed in the Rust code: "fix: Propagated::steps_iter yields 1 only if
+the curve steps there"): `Propagated` over a model under which nothing ever arrives is now
+exact — no step is yielded -/
+theorem propagated_over_nothing_exact :
+    (Arr.prop 3 .never).stepsUpTo 10 = [] ∧
+    StepsSpec (Arr.prop 3 .never).N 10 ((Arr.prop 3 .never).stepsUpTo 10) :=
+  ⟨prop_never_steps, prop_never_steps_spec⟩
+
+/-- the general fact behind it: `Propagated` over any exact inner model (up to the leading 0
+of a prefix, which the jitter shift filters out) is exact, with no side condition on what
+arrives within the jitter -/
+theorem propagated_exact (J : Nat) (a : Arr) (hwf : a.WF) (hex : a.Exact0) (H : Nat) :
+    StepsSpec (Arr.prop J a).N H ((Arr.prop J a).stepsUpTo H) :=
+  Arr.steps_spec (.prop J a) (by simpa only [Arr.WF] using hwf)
+    (by simpa only [Arr.Exact] using hex) H
 
 /-- finding K1: `ArrivalCurvePrefix::steps_iter` yields 0 -/
 theorem counterexample_K1 : ¬ StepsExactForAll := by
@@ -100,6 +116,6 @@ example : (Arr.agg [.sporadic 7 9, .prop 4 (.curve [2, 5, 9]), .xcurve [0, 3]]).
     (Arr.agg [.sporadic 7 9, .prop 4 (.curve [2, 5, 9]), .xcurve [0, 3]]).Exact := by
   refine ⟨by decide, ?_⟩
   simp only [Arr.Exact, Arr.ExactList, Arr.Exact0, and_true, true_and]
-  refine ⟨by decide, by decide⟩
+  decide
 
 end RTA.C11
